@@ -168,7 +168,7 @@ impl Monitor for SolvencyMonitor {
         if r.did != Did::Ok {
             return Ok(());
         }
-        let is_swap = matches!(op, Op::Swap { .. } | Op::SwapBack { .. });
+        let is_swap = matches!(op, Op::Swap { .. } | Op::SwapBack { .. } | Op::SwapExact { .. });
         // --- closed swap runs ---
         if is_swap {
             let u = r.user.unwrap();
